@@ -268,6 +268,9 @@ fn main() {
     if args.len() < 3 {
         machinery_failure("usage: e1 <property> <quick|thorough> | e1 replay <property> <file>");
     }
+    if args[1] == "c08-seq" {
+        c11::c08_seq_child(&args[2]);
+    }
     if args[1] == "e2-child" {
         e2run::child(&args[2], &args[3], args[4].parse().unwrap_or(0), args[5].parse().unwrap_or(1));
     }
@@ -285,6 +288,7 @@ fn main() {
                 replay_generic(&args[2], &args[3], &move |c, acc| replay_matcher_case(&id, c, acc))
             }
             "C11" => replay_generic("C11", &args[3], &c11::replay_case),
+            "C08" => replay_generic("C08", &args[3], &c11::replay_case_c08),
             "C14" => replay_generic("C14", &args[3], &c14::replay_case),
             "C17" => replay_generic("C17", &args[3], &c17::replay_case),
             "C06" | "C07" | "C12" | "C13" | "C19" | "C20" => e2run::replay(&args[2], &args[3]),
